@@ -463,6 +463,10 @@ pub fn gen_module(cs: &mut Cs, mode: ModMode, max_insts: usize) -> GenModule {
     let lv = |l: Layout| -> &'static [&'static GInst] {
         p.by_layout.get(&l).map(|v| v.as_slice()).unwrap_or(&[])
     };
+    // edge mode: one module in sixteen is several times larger (hundreds of instructions,
+    // a dozen functions, sections of a dozen instructions)
+    let mul = if gen.edge_ids && cs.below(16) == 0 { 6 } else { 1 };
+    let max_insts = max_insts * mul;
     match mode {
         ModMode::Ordered | ModMode::Interleaved => {
             // module-level sections in layout order
@@ -483,7 +487,7 @@ pub fn gen_module(cs: &mut Cs, mode: ModMode, max_insts: usize) -> GenModule {
                 let n = if l == Layout::MemoryModel {
                     (cs.below(8) != 0) as usize
                 } else {
-                    cs.below(maxn + 1)
+                    cs.below(maxn * mul + 1)
                 };
                 for _ in 0..n {
                     let gi = pick_from(cs, lv(l));
@@ -494,7 +498,7 @@ pub fn gen_module(cs: &mut Cs, mode: ModMode, max_insts: usize) -> GenModule {
             let mut tgv: Vec<Plan> = vec![];
             let supported = cs.below(4) != 0;
             type_prelude(&mut gen, cs, &mut tgv, supported);
-            let n = cs.below(8);
+            let n = cs.below(8 * mul);
             for _ in 0..n {
                 let gi = match cs.below(8) {
                     0 => gi_by_name("Variable"),
@@ -508,7 +512,7 @@ pub fn gen_module(cs: &mut Cs, mode: ModMode, max_insts: usize) -> GenModule {
             }
             // functions
             let mut funcs: Vec<Vec<Plan>> = vec![];
-            let nf = cs.below(4);
+            let nf = cs.below(4 * mul);
             for _ in 0..nf {
                 let mut f: Vec<Plan> = vec![];
                 emit(&mut gen, cs, &mut f, gi_by_name("Function"));
@@ -518,7 +522,7 @@ pub fn gen_module(cs: &mut Cs, mode: ModMode, max_insts: usize) -> GenModule {
                 let nb = cs.below(4);
                 for _ in 0..nb {
                     emit(&mut gen, cs, &mut f, gi_by_name("Label"));
-                    let ni = cs.below(6);
+                    let ni = cs.below(6 * mul);
                     for _ in 0..ni {
                         let gi = match cs.below(12) {
                             0 => gi_by_name("Variable"),
